@@ -18,7 +18,7 @@ LEVEL_TEXT = ("Bounded verification by symbolic execution of the real fragment-e
 LEVEL_NOTE = ("Bounds: (A) n<=10 quick / n<=16 thorough, module and vector roles, 1-2 parts; (B) chains of 1-2 modules + vector with "
               "one symbolic fragment. That real matches have spans of this shape is block R's conclusion (C04). Feature parts "
               "in the producible domain 0<=start<n, start<=end<start+n. Trusted: z3, CPython, symx models of SeqRecord/SeqFeature.")
-LEVEL_NOTE_EXTRA = 'inherited source-typed input features.'
+LEVEL_NOTE_EXTRA = 'inherited source-typed input features. Also: qualifier values of several Python types; a between-bases marker strictly inside the fragment must be inherited; the same entity asked again after its map was edited in place.'
 TECHNIQUE = "bounded symbolic execution of the real Python source (symx) with z3 on symbolic match spans and feature tables; position-tag letters; replay on the real stack"
 EXPLANATION = ("letters are pairwise distinct position tags, so 'denotes the same nucleotides' is an arithmetic statement about "
                "coordinates modulo the record length which z3 decides on every path of rotate-slice-concatenate")
